@@ -12,1136 +12,968 @@ Definition show_fres (r : fres) : string :=
   end.
 Definition check (rs : list rune) : string := digest (show_fres (format_res rs)).
 Definition full (rs : list rune) : string := show_fres (format_res rs).
-Eval vm_compute in ("<<<M320>>>" ++ check (runes_of_ascii "packet
-    /// triple
-    a1 { @rightPad ( ' ' ) @tag( 255
-)
-@lengthOf( zchar ) string MetaDataX	@calculatedFrom( ""CRC32"" ) // a // b
-`crlf
-line` ,u8 A @lengthOf( charz
-    ) ,
-    body ,@rightPad
-    ( '0'	)@lengthOf( charz ) match repeatCount as
-    Z9_ { 0123456789 : metadata // @lengthOf(
-,""" ++ [233]%N ++ runes_of_ascii "t" ++ [233]%N ++ runes_of_ascii """ : float  ,// packet A { u8 x, }
-""1"": Logon ,// " ++ [27880; 37322]%N ++ runes_of_ascii "
-},
-x_y_z`" ++ [233]%N ++ runes_of_ascii "`//x
-, @calculatedFrom(	""1"")match Header  as body
-    { 4294967296
-// @lengthOf(
-// @lengthOf(
-: MetaDataX
+Eval vm_compute in ("<<<M1404>>>" ++ check (runes_of_ascii "  // top
+	  options 
+
+    // c0
+	{ 
+      // c1
+
+	FixedStringPadFromLeft // c2a
+	  // c2b
+		=  // c3a
+	  // c3b
+    	true // c4
+    ; // c5
+	FixedStringPadChar 
+= // c7a
+	// c7b
+
+'0'	// c8
+  ; }
+packet// c11
+    	Leg 
+{  // c13
+InPrice0// c14a
+	// c14b
+{ 	 // c15
+      repeat	string
+// c17
+
+clOrdID // c18a
+    // c18b
+
+, 
+        // c19
+	int16 	 // c20
+msgKind
+    , 
+        // c22
+    	zchar[ 
+	    // c23
+	5	// c24a
+    // c24b
+]// c25a
+  // c25b
+
+Px
+	,}
+	    // c28
+	, 	 // c29a
+
+// c29b
+	i16
+	    // c30
+f1
+// c31
+
+  ,  
+  // c32
+  repeat
+    // c33
+f64  Side2 	 // c35a
+	// c35b
+	, 
+// c36
+string 
+// c37
+Acct ,  }	// c40
+  	packet 
+// c41
+	Cancel
+    {
+// c43
+
+zchar[	// c44
+      4 
+// c45
+	] // c46a
+  // c46b
+    clOrdID  // c47
+  ,
+	// c48
+string
+	seqNo
+    , Leg  // c52a
+  // c52b
+  	,// c53
+
+  @leftPad 	 // c54a
+    	// c54b
+
+( 
+	    // c55
+
+	'0' 	 // c56a
+  // c56b
+		)
+
+char[  // c58a
+
+// c58b
+    11// c59a
+    	// c59b
+	]OrderId// c61
+,	} 
+
+    // c63
+  packet // c64
+  	Quote 
+    // c65
+  {
+
+// c66
+	repeat 	 // c67a
+    	// c67b
+    char[  // c68a
+	// c68b
+    4 
+
+    // c69
+		]// c70a
+    // c70b
+	sym // c71a
+// c71b
+      , 
+
+// c72
+f64	// c73a
+      // c73b
+
+	OrderId  // c74
+	, repeat // c76
+    Leg, repeat 
+    // c79
+	i64 
+    // c80
+  f1  // c81a
+
+	// c81b
+	  , // c82
+	  int16
+    Note// c84a
+
+// c84b
+
+  ,zchar[// c86a
+	  // c86b
+	3
+	// c87
+]  count  // c89
+    ,	} // c91
+  root packet	// c93
+	Ack
+{ 	 // c95a
+  // c95b
+  	@leftPad// c96
+  ( ' '  // c98
+
+	) // c99a
+
+  // c99b
+char[
+
+    10 ]	// c102a
+	// c102b
+sym
+, InPx60	// c105
+  { 
+// c106
+  Cancel// c107a
+	// c107b
+    ,	// c108a
+
+	// c108b
+repeat char[ 	 // c110
+1] // c112a
+// c112b
+
+	f1 
+
+    // c113
+  , 	 // c114
+
+  string
+
+// c115
+Tail
 ,
-""abc"" //x
-: packetx
-    }
-, x_y_z @calculatedFrom( ""\" ++ [233]%N ++ runes_of_ascii """ ),i64_  @calculatedFrom(""abc"")`
-`,
-@rightPad //	t
-(
-)
-    //	t
-    char
-    float
-@lengthOf(	trueish )
-, @tag(42 ) @leftPad ( '\x00' ) @calculatedFrom(	""\n"") repeat string
-tag, //x
-} packet
-tag { repeat T u `
-` , string u128 @calculatedFrom( // `tick` ""quote"" 'q'
-""packet"" )`u8 x,` ,
+    repeat// c118
+	  InNote55 
+
+// c119
+    { 
+    // c120
+		int8 	 // c121a
+  // c121b
+
+	count 	 // c122a
+
+// c122b
+	  ,// c123a
+    	// c123b
+  f64 
+      // c124
+    	f1 	 // c125a
+		// c125b
+,	// c126a
+  // c126b
+
+	repeat
+	    // c127
+	Cancel 
+// c128
+  , 
+// c129
+  	} 
+    // c130
+		,// c131
+
+  char[] 	 // c132a
+
+	// c132b
+		tag7 , 
+
+    // c134
+	repeat
+        // c135
+  string	// c136
+
+	msgKind
+
+    ,	// c138
+
+  }  // c139a
+  // c139b
+
+,	// c140a
+  // c140b
+    	u8 
+
+// c141
+
+lastPx , match// c144
+lastPx  // c145a
+  	// c145b
+    as 
+Body 	 // c147a
+	  // c147b
+    {152:// c150
+    	Quote,
+// c152
+    173	:// c154
+
+	Cancel// c155
+,  // c156a
+  	// c156b
+		4 // c157
+    :	// c158a
+    // c158b
+	Leg
+	    // c159
+	,
+    // c160
+} // c161a
+	// c161b
+    	, 
+  // c162
+
+  u16 Ref @calculatedFrom(
+""CRC32"" )
+    // c167
+, // c168a
+    // c168b
+  	} 
+
+// c169
+ 
+")).
+Eval vm_compute in ("<<<M383>>>" ++ check (runes_of_ascii "options {
+	StringPrefixLenType = u16;
+	ArrayPrefixLenType = u16;
+}
+
+packet SampleBinary {
+    uint16 MsgType `" ++ [28040; 24687; 31867; 22411]%N ++ runes_of_ascii "`,
+    u16 BodyLenght @lengthOf(Body) `" ++ [28040; 24687; 20307; 38271; 24230]%N ++ runes_of_ascii "`,
+    match MsgType as Body {
+        1 : Logon,
+        2 : Logout,
+        3 : Heartbeat,
+        4 : RiskControlRequest,
+        5 : RiskControlResponse,
+    },
+        @calculatedFrom(""CRC32"")
+    u32 Ckecksum `" ++ [26657; 39564; 21644]%N ++ runes_of_ascii "`,
+}
+
+packet Logon {
+     @leftPad('0')
+    char[10] UserName `" ++ [29992; 25143; 21517]%N ++ runes_of_ascii "`,
+    string Password `" ++ [23494; 30721]%N ++ runes_of_ascii "`,
+    uint64 ClientId `" ++ [23458; 25143; 31471]%N ++ runes_of_ascii "ID`,
+    u16 HeartbeatInterval `" ++ [24515; 36339; 38388; 38548]%N ++ runes_of_ascii "`,
+}
+
+packet Logout {
+      @rightPad('0')
+    char[10] UserName `" ++ [29992; 25143; 21517]%N ++ runes_of_ascii "`,
+    uint64 ClientId `" ++ [23458; 25143; 31471]%N ++ runes_of_ascii "ID`,
+}
+
+packet Heartbeat {
+}
+
+packet RiskControlRequest {
+    string UniqueOrderId `" ++ [21807; 19968; 35746; 21333; 21495]%N ++ runes_of_ascii "`,
+    char[16] ClOrdID `" ++ [23458; 25143; 35746; 21333; 21495]%N ++ runes_of_ascii "`,
+    char[3] MarketID `" ++ [24066; 22330]%N ++ runes_of_ascii "id`,
+    char[12] SecurityID `" ++ [35777; 21048; 20195; 30721]%N ++ runes_of_ascii "`,
+    char Side `" ++ [20080; 21334; 26041; 21521]%N ++ runes_of_ascii "`,
+    char OrderType `" ++ [35746; 21333; 31867; 22411]%N ++ runes_of_ascii "`,
+    u64 Price `" ++ [20215; 26684]%N ++ runes_of_ascii "`,
+    u32 Qty `" ++ [25968; 37327]%N ++ runes_of_ascii "`,
+    repeat string ExtraInfo `" ++ [38468; 21152; 20449; 24687]%N ++ runes_of_ascii "`,
+    repeat SubOrder {
+    		char[16] ClOrdID `" ++ [23376; 35746; 21333; 21495]%N ++ runes_of_ascii "`,
+    		u64 Price `" ++ [23376; 35746; 21333; 20215; 26684]%N ++ runes_of_ascii "`,
+    		u32 Qty `" ++ [23376; 35746; 21333; 25968; 37327]%N ++ runes_of_ascii "`,
+    	},
+}
+
+packet RiskControlResponse {
+    string UniqueOrderId `" ++ [21807; 19968; 35746; 21333; 21495]%N ++ runes_of_ascii "`,
+    i32 Status `" ++ [29366; 24577]%N ++ runes_of_ascii "`,
+    string Msg `" ++ [32467; 26524; 20449; 24687]%N ++ runes_of_ascii "`,
+    repeat Detail,
+}
+
+packet Detail {
+    string RuleName `" ++ [35268; 21017; 21517; 31216]%N ++ runes_of_ascii "`,
+    u16 Code `" ++ [21407; 22240; 20195; 30721]%N ++ runes_of_ascii "`,
+}")).
+Eval vm_compute in ("<<<M331>>>" ++ check (runes_of_ascii "packet o
 // trailing space 
 //x
-repeat
-    f64
-stringy `" ++ [233]%N ++ runes_of_ascii "` , u32 leftPad  @lengthOf(float ) , uint32	i8i8
-@lengthOf( f32a
-) , int@calculatedFrom( """ ++ [233]%N ++ runes_of_ascii "t" ++ [233]%N ++ runes_of_ascii """ )
-    ,
-    // c
-    @calculatedFrom( ""\n""
-) @leftPad
-    ( '\x00') @rightPad
-    ()
-    repeat
-pack  `// not a comment` , @calculatedFrom( ""1""	)
-    char[]  string_
-,f64 calculatedFrom
-    @lengthOf(	pack)  `tab	here`,@tag(00 ) int8 tag
-    ,
-} options { f32a
-= ""a	b"" _x = false ; _x = '0' o= false /// triple
-} packet falsey
-    /// triple
-    { @tag(
-    // trailing space 
-    007 ) string falsey,
-i64_
-@lengthOf(crc),repeat // c
-u128 body// packet A { u8 x, }
-, char[ 00]roots,/// triple
-metadata @lengthOf(packetx // `tick` ""quote"" 'q'
-)
-    `
-`	,// trailing space 
-string_
-BodyLength, @calculatedFrom(
-""it's"" ) repeat matchKey ,
-metadata
-    @calculatedFrom( ""abc""
-)// @lengthOf(
-,
-@tag( 255 )repeat
-Pad
-    {
-char[] packetx ,repeat o { int16 charz
-    // packet A { u8 x, }
-    ,packetx {
-i8
-//
-// packet A { u8 x, }
-zchar ,} ,char[10 //x
-]x
-, repeat zchar[ 0123456789 ]
-pack , // c
-} ,	int ,
-i8 asx ,
-}
-,}
-packet leftPad
-    { @tag(255
-    /// triple
-    )repeat uint16 msg_type  ,
-    // c
-    f32  trueish @calculatedFrom("""" )	`two words` // `tick` ""quote"" 'q'
-, @leftPad( '\x00' ) @lengthOf( leftPad
-) // a // b
-@lengthOf( asx // a // b
-)
-    //	t
-    zchar[ 1] roots @calculatedFrom(
-""abc""
-) ,pack @lengthOf(
-Z9_ ), @tag(
-65535) @lengthOf(Header
-    ) // c
-f64 tag , @tag( 1
-)repeat
-    u8x, match stringy// c
-as x { ""it's"" // " ++ [27880; 37322]%N ++ runes_of_ascii "
-: Z9_ ,7 : u128 ,
-""// no comment"" :trueish, 00
-:
-    //	t
-    f32a ,
-    [3,  1, 00]:	pack,""" ++ [28040; 24687]%N ++ runes_of_ascii """
-    // trailing space 
-    : options1	,
-// `tick` ""quote"" 'q'
-//x
-} ,
-repeat // `tick` ""quote"" 'q'
-u128 { repeat
-crc
-{ int16	int ,  }
-// c
+{	repeat pack stringy `two words`	,
+    char[	1 ]
+leftPad , }
+/// triple
 // @lengthOf(
-, }
-    // @lengthOf(
-    , @leftPad ( ' '  ) // trailing space 
-repeat
-zchar[ 255 ]
-// " ++ [128512]%N ++ runes_of_ascii " emoji
-// `tick` ""quote"" 'q'
-int `crlf
-line` ,@tag( 1 ) Logon roots
-    `// not a comment` , }
-")).
-Eval vm_compute in ("<<<M1840>>>" ++ check (runes_of_ascii "options {StringPrefixLenType
-	= u16
-    ; ArrayPrefixLenType=
-u16 ;} packet SampleBinary{ 
-uint16 
-MsgType
-    `" ++ [28040; 24687; 31867; 22411]%N ++ runes_of_ascii "`	, 
-u16 BodyLenght @lengthOf( Body
-    ) 
-`" ++ [28040; 24687; 20307; 38271; 24230]%N ++ runes_of_ascii "` 
-,
-	match MsgType
-
-as Body 
-{ 
-1:
-Logon  , 
-2 : 
-Logout,
-
-3 : Heartbeat
-    ,4
-:
-    RiskControlRequest  ,
-5
-
-    : RiskControlResponse
-
-    ,
-}  ,
-	@calculatedFrom( ""CRC32"" )u32
-Ckecksum`" ++ [26657; 39564; 21644]%N ++ runes_of_ascii "` ,}packet
-
-Logon
-
-{ @leftPad 
-('0' )
-
-    char[
-    10
-
-    ]
-    UserName
-
-    `" ++ [29992; 25143; 21517]%N ++ runes_of_ascii "` ,
-
-    string	Password
-
-    `" ++ [23494; 30721]%N ++ runes_of_ascii "`
-
-,
-	uint64
-    ClientId
-
-`" ++ [23458; 25143; 31471]%N ++ runes_of_ascii "ID`,  u16
-    HeartbeatInterval
-	`" ++ [24515; 36339; 38388; 38548]%N ++ runes_of_ascii "` ,}	packet Logout  { @rightPad
-    (
-    '0'
-
-    )
-
-    char[ 10 ]
-	UserName
-    `" ++ [29992; 25143; 21517]%N ++ runes_of_ascii "`  ,
-	uint64
-    ClientId
-`" ++ [23458; 25143; 31471]%N ++ runes_of_ascii "ID`  , } 
-packet
-
-    Heartbeat
-{ }
-	packet RiskControlRequest
-
-    {string UniqueOrderId
-	`" ++ [21807; 19968; 35746; 21333; 21495]%N ++ runes_of_ascii "`
-	, 
-char[
-
-16
-]
-ClOrdID
-`" ++ [23458; 25143; 35746; 21333; 21495]%N ++ runes_of_ascii "`,char[
-
-3
-
-]
-	MarketID`" ++ [24066; 22330]%N ++ runes_of_ascii "id` ,
-
-char[
-	12
-
-    ]  SecurityID
-	`" ++ [35777; 21048; 20195; 30721]%N ++ runes_of_ascii "` 
-,
-
-char Side
-
-`" ++ [20080; 21334; 26041; 21521]%N ++ runes_of_ascii "`
-    ,
-    char
-    OrderType
-
-    `" ++ [35746; 21333; 31867; 22411]%N ++ runes_of_ascii "`  ,	u64 Price
-
-    `" ++ [20215; 26684]%N ++ runes_of_ascii "`  , 
-u32
-
-Qty  `" ++ [25968; 37327]%N ++ runes_of_ascii "`  , 
-repeat string
-    ExtraInfo
-	`" ++ [38468; 21152; 20449; 24687]%N ++ runes_of_ascii "` ,
-repeat
-
-    SubOrder
-{ char[
-16 ]
-
-ClOrdID`" ++ [23376; 35746; 21333; 21495]%N ++ runes_of_ascii "`
-
-    ,
-u64
-Price  `" ++ [23376; 35746; 21333; 20215; 26684]%N ++ runes_of_ascii "`
-, u32	Qty
-`" ++ [23376; 35746; 21333; 25968; 37327]%N ++ runes_of_ascii "`
-, },
-    }
-packet RiskControlResponse	{
-
-    string UniqueOrderId
-    `" ++ [21807; 19968; 35746; 21333; 21495]%N ++ runes_of_ascii "`  ,
-i32
-    Status`" ++ [29366; 24577]%N ++ runes_of_ascii "`
-
-,
-string
-Msg`" ++ [32467; 26524; 20449; 24687]%N ++ runes_of_ascii "`,  repeat 
-Detail
-,
-}
-packet Detail 
-{ string RuleName  `" ++ [35268; 21017; 21517; 31216]%N ++ runes_of_ascii "`,
-
-    u16 Code
-
-`" ++ [21407; 22240; 20195; 30721]%N ++ runes_of_ascii "`	,  }
-")).
-Eval vm_compute in ("<<<M1581>>>" ++ check (runes_of_ascii "  // `tick` ""quote"" 'q'
-packet	crc
-
-    {  @tag( 0  ) 	 //x
-
-chars,
-    i8i8 @lengthOf(
-
-    packetx
-	) ,repeat 
-f32a{match
-
-packetx
-as 
-a1
-
-{""x y""  :  
-  //
-	// `tick` ""quote"" 'q'
-  Packet,
-} 
-,
-
-},  @leftPad
-
-    ( 
-'\x00')
-    uint8  int  ,
-	match 
-float as
-
-a1
-{ 
+MetaData msg_type{ zchar[  1] Pad`" ++ [28040; 24687; 31867; 22411]%N ++ runes_of_ascii "` , uint32 //x
+charz//
+`a\`
+,  A u8x `// not a comment` ,
     // `tick` ""quote"" 'q'
-	[ 
-4294967296 ]	:// " ++ [27880; 37322]%N ++ runes_of_ascii "
-    Packet ,
-	} 	 //
-	,
-repeat  zchar[007  ] zchar
-`tab	here`,
-	repeat 
-
-    // " ++ [27880; 37322]%N ++ runes_of_ascii "
-  	// a // b
-	x
-,
-	}
-    packet
-
-    string_ 
-// c
-  { char[
-    0123456789
-    ] a1
-    ,
-	@calculatedFrom(
-
-    ""a\\""
-    ) 
-@tag( 42
-	)@leftPad(
-	'\x00'
-    ) options1
-@calculatedFrom(""" ++ [28040; 24687]%N ++ runes_of_ascii """
-)
-`it's`
-,
-
-    repeat  rootA// packet A { u8 x, }
-{ 
-
-//
-    match
-Logon as
-	Packet
-
-{[10 
-, 255 
-,
-
-0
-,	007 
-, 
-""CRC32""
-	,	""abc""
-
-    ]
-
-: len
-	,""" ++ [28040; 24687]%N ++ runes_of_ascii """ : 
-a1 , }	, match
-    leftPad
-
-    as
-	Header {
-
-    007  :
-As
-,255
-:
-repeatCount
-
-    ,	/// triple
-""""// packet A { u8 x, }
-  : 
-matchKey 	 //
-    	,  [ 255 , 
-3 
-,
-
-    ""abc""
-
-,
-""""	,
-
-""\n"" ,
-    1  ,"""" // " ++ [27880; 37322]%N ++ runes_of_ascii "
-	,
-42 //x
-
-	] :pack, } ,} 
-	// @lengthOf(
-  	// `tick` ""quote"" 'q'
-,
-    int 
-{
-
-    int64
-
-chars,
-}// @lengthOf(
-	, } ")).
-Eval vm_compute in ("<<<M1600>>>" ++ check (runes_of_ascii "
-// top
-    options // c0
-  {LittleEndian 
-
-    // c2
-=
-	true
-// c4
-	; StringPrefixLenType
-
-    =  // c7a
-  	// c7b
-  	u16	// c8
-;// c9a
-  // c9b
-
-	FixedStringPadChar =// c11a
-  // c11b
-
-' '  // c12
-	;	// c13
-	}
-packet  // c15
-      Logon
-
-    {// c17
-@leftPad  // c18a
-	// c18b
-  ('0' 
-        // c20
-	  )
-char[ // c22
-	10 ] 
-    // c24
-
-  tag7	// c25a
-	// c25b
-,
-    }
-// c27
-
-root  // c28a
-// c28b
-	packet	Ack
-    // c30
-	{ // c31
-int32 Px // c33
-    	,	// c34a
-// c34b
-		uint16  // c35
-  	count  // c36a
-  	// c36b
-  ,	// c37
-	string // c38
-
-Qty  // c39
-  , string
-        // c41
-    	OrderId 
-// c42
-  ,
-    string 
-Flags// c45a
-
-// c45b
-  ,  u8
-	x// c48a
-
-// c48b
-	,	// c49a
-    	// c49b
-  match  // c50
-	x// c51
-    	as
-Body 
-        // c53
-	{  // c54
-	[
-
-// c55
-  58	// c56
-
-  , // c57a
-// c57b
-	169
-
-    ]	// c59
-:  // c60a
-	  // c60b
-Logon 
-    // c61
-	,
-}	// c63
-		,  }  // c65a
-	// c65b
-")).
-Eval vm_compute in ("<<<M1386>>>" ++ check (runes_of_ascii "// top
-options
-    // c0
-{
-    // c1
-LittleEndian // c2a
-  // c2b
-=
-    // c3
-true // c4a
-  // c4b
-; } // c6a
-  // c6b
-packet // c7a
-  // c7b
-Logon // c8a
-  // c8b
-{ u8
-    // c10
-x // c11a
-  // c11b
-,
-    // c12
-}
-    // c13
-packet
-    // c14
-Logout
-    // c15
-{ // c16
-u16 reason // c18a
-  // c18b
-, } // c20
-root // c21
-packet Frame // c23
-{ // c24a
-  // c24b
-u64
-    // c25
-Kind , // c27
-u64 Kind2 // c29
-, match Kind // c32
-as // c33
-Body
-    // c34
-{
-    // c35
-1 : // c37a
-  // c37b
-Logon ,
-    // c39
-[ // c40a
-  // c40b
-2 , // c42a
-  // c42b
-3 // c43a
-  // c43b
-, // c44
-4 // c45a
-  // c45b
-] // c46a
-  // c46b
-:
-    // c47
-Logout
-    // c48
-, // c49
-100 : // c51
-Logon
-    // c52
-, // c53
-} // c54
-, match // c56a
-  // c56b
-Kind2 // c57
-as // c58
-Trailer
-    // c59
-{ // c60a
-  // c60b
-0 : // c62
-Logout
-    // c63
-, // c64
-} // c65
-, } ")).
-Eval vm_compute in ("<<<M1884>>>" ++ check (runes_of_ascii "
-packet pack 
-  // c
-
-  // packet A { u8 x, }
-	  {  u8	a1  
-  // trailing space 
-  	/// triple
-`say ""hi""` 	 // packet A { u8 x, }
-, @leftPad
-    (
-
-    '\x00'
-) uint8
-
-Logon
-`
-`// `tick` ""quote"" 'q'
-	, char[]
-lengthOf 	 // " ++ [27880; 37322]%N ++ runes_of_ascii "
-      `" ++ [233]%N ++ runes_of_ascii "`,
-	    //
-  //x
-
-  repeat 
-char[]
-
-    As 
-, 
-        //	t
-  @lengthOf(	string_
-    )
-    @calculatedFrom(""a\\""	) 
-repeat
-u8x
-    o, char
-
-    string_  @calculatedFrom( ""a\""b"") `tab	here`	, repeat 
-As
-    {  char[ 
-// packet A { u8 x, }
-  0	] i64_	//	t
-  @lengthOf(	T 
-)
-	`" ++ [233]%N ++ runes_of_ascii "` ,	char[
-4294967296
-] 
-T
-@calculatedFrom(
-
-""\" ++ [233]%N ++ runes_of_ascii """ ) 
-, trueish  , 
-repeat	int 
-{ 
-string
-
-Logon@calculatedFrom(	""1"") ,
-
-    metadata
-
-,
-    uint32 
-Z9_ , // " ++ [27880; 37322]%N ++ runes_of_ascii "
-    }
-
-    ,
-}	,
-
-    @tag( 00
-) //	t
-	i16
-
-    a1`a\` ,
-    }
-
-")).
-Eval vm_compute in ("<<<M1360>>>" ++ check (runes_of_ascii "options {
-    StringPrefixLenType = u8;
-    ArrayPrefixLenType = u32;
-    FixedStringPadFromLeft = true;
-    FixedStringPadChar = ' ';
-}
-packet Leg {
-}
-packet Heartbeat {
-    zchar[6] msgKind,
-    @rightPad('0') char[3] Qty,
-    zchar[9] Side2,
-    i8 Acct,
-}
-packet Logout {
-    int8 x,
-}
-packet Order {
-    char[] Acct,
-    zchar[8] count,
-    u32 OrderId,
-    uint8 lastPx,
-    u16 clOrdID,
-    zchar[7] Note,
-}
-root packet Reject {
-    @leftPad(' ') char[8] Side2,
-    i8 clOrdID,
-    repeat f32 x,
-    u32 lastPx,
-    match lastPx as Body {
-        [30, 147] : Heartbeat,
-        134 : Leg,
-        183 : Logout,
-        40 : Order,
-    },
-    u16 Ref @calculatedFrom(""CRC32""),
-}
-")).
-Eval vm_compute in ("<<<M1646>>>" ++ check (runes_of_ascii "root packet falsey {
-    @tag(255)
-    len @calculatedFrom(""`tick`""),
-    match MetaDataX as crc {
-        [7] : roots,
-    },
-    @tag(10)
-    @tag(10)
-    @tag(255)
-    repeat uint64 rootA,
-    tag `" ++ [28040; 24687; 31867; 22411]%N ++ runes_of_ascii "`,
-    float32 i64_,
-    int64 _x `doc`,
-    @leftPad(' ')
-    match i8i8 as pack {
-        // `tick` ""quote"" 'q'
-        7 : Logon,
-        ""x y"" : lengthOf,
-    },// trailing space 
-    match x_y_z as u {
-        // `tick` ""quote"" 'q'
-        // " ++ [27880; 37322]%N ++ runes_of_ascii "
-        [0123456789] : packetx,
-        007 : x_y_z,
-        10 : rootA,
-        7 : u,
-        0123456789 : falsey,
-    },// packet A { u8 x, }
-}")).
-Eval vm_compute in ("<<<M1785>>>" ++ check (runes_of_ascii "packet rootA {
-    options1 _x,
-    u64 Header,
-}
-
-packet lengthOf {
-    @rightPad(' ')
-    @lengthOf(u128)
-    @calculatedFrom(""a\""b"")
-    A {
-        string i64_ `it's`,
-        //	t
-        // trailing space 
-        uint8 body,
-        match pack as u {
-            // @lengthOf(
-            // trailing space 
-            00 : charz,
-            00 : int,
-            3 : falsey,
-            255 : body,
-            [0123456789] : x_y_z,
-            // a // b
-            //
-        },
-    },
-}
-
-MetaData chars {
-    u128 zchar,
-    char[42] metadata,
-}")).
-Eval vm_compute in ("<<<M1860>>>" ++ check (runes_of_ascii "packet  /// triple
-  matchKey {
-	float32  float
-
-    ,
-@calculatedFrom(
-
-""a\\""  // " ++ [27880; 37322]%N ++ runes_of_ascii "
-    )
-@rightPad
-
-(	'\x00'
-	)
-
-    i16 
-tag
-    @calculatedFrom(""abc"" )
-, repeat zchar[  255
-]
-    pack
-	,
-
-    @lengthOf(
-	Z9_)
-	tag
-    ,
-
-    }// trailing space 
-root
-
-    packet
-
-    rootA
-{ repeat
-
-    metadata 
-{
-	Logon
-
-    , }	,
-@tag(10
-
-)  @lengthOf( A	)
-	@tag(  007)	u32 options1,  match float
+    } packet
+options1
+    {@calculatedFrom( """ ++ [233]%N ++ runes_of_ascii "t" ++ [233]%N ++ runes_of_ascii """
+) @rightPad( )
+Pad
+@lengthOf(// packet A { u8 x, }
+pack ) `` ,
+match
+    A
 as
-u
-
-{	0123456789
-:u8x
-	, 
+    a1 { 255  :
+msg_type  ,
+}
+,
+// " ++ [27880; 37322]%N ++ runes_of_ascii "
+//
+@lengthOf( tag )  @tag( 00 )@rightPad(' '
+) match Header	as f32a { """" : float , } // @lengthOf(
+, char[] T@calculatedFrom(
+    // packet A { u8 x, }
+    ""packet""	) , repeat asx /// triple
+msg_type`crlf
+line` , @calculatedFrom( ""\" ++ [233]%N ++ runes_of_ascii """ ) @tag( // trailing space 
+7
+)
+int64 o
+`line1
+line2`,
+    // trailing space 
+    } // " ++ [128512]%N ++ runes_of_ascii " emoji
+root
+packet// packet A { u8 x, }
+crc  { int8
+body
+@lengthOf( matchKey ) `two words` ,
+    //	t
+    @lengthOf( u8x )
+zchar[
+0123456789
+    ] i8i8,
+} MetaData  a1 { falsey _x
+`
+` ,
+char[] body`" ++ [28040; 24687; 31867; 22411]%N ++ runes_of_ascii "` ,
+// packet A { u8 x, }
+//
+zchar[ 42] trueish `
+` , float trueish,  metadata //x
+o `{ , }`, }")).
+Eval vm_compute in ("<<<M107>>>" ++ check (runes_of_ascii "packet falsey { i64_ ,	charz  {
+match Packet  as Pad { ""\n"" :Packet
+    , ""// no comment"" // " ++ [128512]%N ++ runes_of_ascii " emoji
+:
+f32a// `tick` ""quote"" 'q'
+, [
+    /// triple
+    3  ,4294967296,
+    10 ,//
+7 , 10	]
+: u
+, // trailing space 
+""`tick`"": u8x
+,
+[ 7 , ""it's"" ]:Packet, 0 : len
+    //
+    , }
+    , }, /// triple
+@lengthOf(	f32a) char[ 3 ]options1
+    @lengthOf(
+Pad)
+, zchar[ 0123456789 ]// trailing space 
+T ``
+,
+} packet
+Pad
+{
+    // c
+    o roots `{ , }` // " ++ [128512]%N ++ runes_of_ascii " emoji
+, }packet f32a {
+_x//
+@calculatedFrom(	""x y"") //x
+,@tag( 65535
+) //	t
+char pack @lengthOf( zchar  ) ,repeat //
+int64 falsey  ,repeat len {match A
+    as rootA {[ 42,  ""\n"" ]:
+Z9_ , }
+,repeat i16
+A , repeat zchar[ 65535 ] tag `
+` ,
+f64 float
+    @lengthOf( f32a ) ``  ,
+// `tick` ""quote"" 'q'
+// packet A { u8 x, }
+} , x
+    u8x
+, @tag(  42	) repeat As Packet	, @lengthOf( Pad
+    )repeat
+    f64 rootA ,// @lengthOf(
+}")).
+Eval vm_compute in ("<<<M322>>>" ++ check (runes_of_ascii "packet leftPad { //
+i8 stringy @calculatedFrom( """ ++ [128512]%N ++ runes_of_ascii """	) , int@calculatedFrom(
+// c
+// " ++ [128512]%N ++ runes_of_ascii " emoji
+""a	b"" )
+`it's` ,
+    @leftPad () @tag( 0123456789
+    )int32 u8x , @lengthOf(A )float64	u128	@calculatedFrom(
+    ""a\\"" ), //x
+} options { //x
+Pad = 0 u =
+    ' ' }MetaData
+    a1 { char[]
+metadata	`// not a comment`
+    // @lengthOf(
+    ,
+}	packet
+Foo { @tag(
+42 )	repeat BodyLength ,
+    int8 metadata`{ , }` ,@leftPad ( // c
+)// " ++ [27880; 37322]%N ++ runes_of_ascii "
+@calculatedFrom(//
+""`tick`""
+    ) @calculatedFrom(	""a	b""	) u32 stringy , @lengthOf( roots ) zchar[ 0 ] msg_type @lengthOf( i64_
+)`tab	here`	,i8 Header	`{ , }`
+, char[ 7
+] trueish @lengthOf(	packetx
+    )
+, u64	charz `
+`
+    ,
+    zchar[
+//	t
+// c
+65535]
+repeatCount
+`it's`
+    ,match // @lengthOf(
+calculatedFrom as calculatedFrom  {""a	b""
+: roots 42	: MetaDataX	,
+},
+}")).
+Eval vm_compute in ("<<<M1689>>>" ++ check (runes_of_ascii "root packet asx {
+    // `tick` ""quote"" 'q'
+    f32a,
+    @calculatedFrom(""abc"")
+    zchar[65535] metadata `
+        `,
+    @calculatedFrom(""CRC32"")
+    Header `doc`,
+    match f32a as msg_type {
+        [""\n""] : charz,
+        // @lengthOf(
+        0123456789 : pack,
+        //x
+        [
+            ""packet"", """", ""`tick`"", ""CRC32"", ""\n"",
+            ""it's"", ""it's"", 4294967296
+        ] : charz,
+        42 : leftPad,
+        [
+            255, 7, ""packet"", ""{,}"", ""\" ++ [233]%N ++ runes_of_ascii """,
+            ""1"", ""1""
+        ] : msg_type,
+        [""" ++ [128512]%N ++ runes_of_ascii """] : i64_,
+    },
 }
 
-    , } 	 // " ++ [27880; 37322]%N ++ runes_of_ascii "
-    root  packet
-lengthOf{ 
+packet body {
 }
+
+root packet i64_ {
+    uint16 Header @calculatedFrom(""" ++ [233]%N ++ runes_of_ascii "t" ++ [233]%N ++ runes_of_ascii """) ``,
+    float64 string_ @calculatedFrom(""`tick`""),
+    repeat zchar[1] packetx `it's`,
+}//	t")).
+Eval vm_compute in ("<<<M184>>>" ++ check (runes_of_ascii "packet options1{@leftPad	( '0' )	@rightPad ( // a // b
+'\x00'
+) @tag(
+255
+) /// triple
+repeat string As `
+`,
+@calculatedFrom(
+"""" )@calculatedFrom(//x
+""x y"" )
+a1
+{ Foo {trueish { tag
+@lengthOf(  i8i8 ) `doc`
+, }
+, zchar[
+00 ] f32a @lengthOf( calculatedFrom) , repeat
+zchar[ 1
+    ] stringy`{ , }`
+    , },uint64  repeatCount	@lengthOf(// `tick` ""quote"" 'q'
+asx
+    ) , char[ 42
+] lengthOf @calculatedFrom(// c
+""packet""), char[ 10 ] calculatedFrom @lengthOf( BodyLength ), } ,
+asx`// not a comment`,  } options { matchKey =""" ++ [128512]%N ++ runes_of_ascii """ falsey = ""a\""b"" ; A // a // b
+= ""CRC32"" msg_type
+    =
+    //x
+    """ ++ [233]%N ++ runes_of_ascii "t" ++ [233]%N ++ runes_of_ascii """	; } MetaData o//	t
+{
+} packet
+Pad{  }")).
+Eval vm_compute in ("<<<M1420>>>" ++ check (runes_of_ascii "options  { 
+As = 	 // trailing space 
+
+	zchar[
+    4294967296]; } //	t
+packet len// packet A { u8 x, }
+    	{
+@lengthOf(
+
+    _x )
+
+match
+    // c
+
+lengthOf	as 
+	//
+	// `tick` ""quote"" 'q'
+  string_  // c
+	{
+
+[  4294967296
+    ]  : i64_ ""a	b""	: o  ,  }
+,
+    leftPad@calculatedFrom( 
+""`tick`"")
+	    // trailing space 
+    	// `tick` ""quote"" 'q'
+,
+
+@leftPad( '\x00'
+
+    )  repeat
+
+charz/// triple
+	msg_type , repeat
+	i8 Foo,
+}
+	packet
+
+msg_type
+    { 
+    //x
+
+// @lengthOf(
+
+  @leftPad(  '0'  )
+	u64
+repeatCount @calculatedFrom( """ ++ [28040; 24687]%N ++ runes_of_ascii """), 	 // packet A { u8 x, }
+  }
 
 ")).
-Eval vm_compute in ("<<<M1297>>>" ++ check (runes_of_ascii "packet A { // c2a
-  // c2b
-u8
-    // c3
-a ,
+Eval vm_compute in ("<<<M1800>>>" ++ check (runes_of_ascii "options {
+    LittleEndian = true;
     // c5
-} // c6a
-  // c6b
-packet B // c8
-{ // c9
-u16
-    // c10
-b // c11
-, // c12
-} // c13a
-  // c13b
-root // c14a
-  // c14b
-packet // c15a
-  // c15b
-P
-    // c16
-{ u8 // c18a
-  // c18b
-K // c19
-, match // c21
-K // c22a
-  // c22b
-as // c23
-M // c24
-{ // c25a
-  // c25b
-1 : // c27a
-  // c27b
-A // c28a
-  // c28b
-,
-    // c29
-1
+}// c6a
+
+// c6b
+packet Logon {
+    // c9
+    u8 x,// c12
+}// c13a
+
+// c13b
+packet Logout {
+    u16 reason,
+    // c19
+}
+
+root packet Frame {
+    // c24
+    u64 Kind,// c27
+    u64 Kind2,
     // c30
-: B
-    // c32
-,
-    // c33
-} // c34a
-  // c34b
-,
-    // c35
-} ")).
-Eval vm_compute in ("<<<M1948>>>" ++ check (runes_of_ascii "
-options
-
-    {falsey=
-	int64
-
-    ;u8x =
-uint32
-    uint8x
-	=  // " ++ [128512]%N ++ runes_of_ascii " emoji
-zchar[
-
-    1]  
-      // @lengthOf(
-
-	/// triple
-      ; leftPad
-=  ""a	b"" ;calculatedFrom
-    =
-	false
-;
-}	MetaData
-	Packet{ 
-zchar[
-	7
-
-    ]
-As ,
-    } 
-root packet pack	{
-
-@leftPad() @tag(// trailing space 
-  	7 )
-
-    zchar[
-
-3	]
-
-    u@lengthOf( 
-    // @lengthOf(
-	  // trailing space 
-  x
-
-)	, 
+    match Kind as Body {
+        // c35a
+        // c35b
+        1 : Logon,
+        // c39
+        [2, 3, 4] : Logout,
+        // c49
+        100 : Logon,
+        // c53
+    },
+    // c55
+    match Kind2 as Trailer {
+        // c60
+        0 : Logout,
+    },
+    // c66
 }")).
-Eval vm_compute in ("<<<M1265>>>" ++ check (runes_of_ascii "// top
+Eval vm_compute in ("<<<M33>>>" ++ check (runes_of_ascii "packet
+int {zchar[ 007 ] metadata ,i16	matchKey,
+@rightPad('0')
+@lengthOf(
+    metadata) repeat zchar[
+    10 ]
+//
+// " ++ [128512]%N ++ runes_of_ascii " emoji
+charz
+    // trailing space 
+    ,	} packet int { @tag( 65535 )
+u32 x @calculatedFrom(
+    ""x y""// " ++ [27880; 37322]%N ++ runes_of_ascii "
+),match pack as MetaDataX
+{
+    [	""abc"" ,
+    // " ++ [27880; 37322]%N ++ runes_of_ascii "
+    0123456789 , ""`tick`"" ] :
+body}	, @lengthOf( zchar ) match leftPad as u8x{
+    10:  u8x ,
+[
+007
+    // " ++ [128512]%N ++ runes_of_ascii " emoji
+    , 255
+    ]
+    :
+    chars	"""" :
+    body ,42 : trueish , }, }")).
+Eval vm_compute in ("<<<M374>>>" ++ check (runes_of_ascii "MetaData BodyLength { zchar[ 65535 ]	As `crlf
+line`
+, u16 charz , body len,
+zchar msg_type ,uint64 metadata
+,}
+root packet //
+matchKey
+    {
+repeat i8i8  `{ , }` ,
+} MetaData a1 { i8i8 Pad`it's`	,
+// trailing space 
+// `tick` ""quote"" 'q'
+int64
+    // " ++ [128512]%N ++ runes_of_ascii " emoji
+    roots `doc` ,
+Foo BodyLength `u8 x,` , } packet	_x
+{ lengthOf
+    {
+pack `" ++ [28040; 24687; 31867; 22411]%N ++ runes_of_ascii "` ,
+string_ // @lengthOf(
+, repeat //
+rootA len , zchar[ 1
+] u8x,} , }
+")).
+Eval vm_compute in ("<<<M1262>>>" ++ check (runes_of_ascii "// top
 packet // c0
 B // c1
+{
+    // c2
+u8
+    // c3
+a , } root packet // c8a
+  // c8b
+P // c9a
+  // c9b
+{
+    // c10
+u8 // c11
+K , // c13
+u64 // c14a
+  // c14b
+L @lengthOf( // c16a
+  // c16b
+Body
+    // c17
+) , match // c20a
+  // c20b
+K as // c22a
+  // c22b
+Body // c23
+{ // c24a
+  // c24b
+1 : // c26a
+  // c26b
+B // c27a
+  // c27b
+,
+    // c28
+} // c29
+, // c30
+}
+    // c31
+")).
+Eval vm_compute in ("<<<M1794>>>" ++ check (runes_of_ascii "
+
+  options 
+{LittleEndian  =true
+	;StringPrefixLenType =
+	u16 ;FixedStringPadChar
+= ' '
+;
+}
+	packet
+Logon 
+{
+@leftPad
+( '0' )  char[  10
+
+] tag7
+
+    ,
+    } root
+	packet Ack
+{
+
+    int32
+
+    Px
+
+, uint16	count
+,
+    string
+	Qty
+
+, string	OrderId
+
+,
+
+    string  Flags  , u8	x ,
+
+match
+	x
+as Body
+
+{[
+
+58, 169
+] 
+:
+
+    Logon
+	, },}
+")).
+Eval vm_compute in ("<<<M1567>>>" ++ check (runes_of_ascii "
+
+  MetaData chars
+    {  uint64	A
+	,msg_type
+asx 
+// c
+	,
+Z9_ a1 
+, 
+stringy i64_ 	 //
+  `doc`,	}
+    packet 
+    /// triple
+// a // b
+
+x_y_z{  } options
+{ float  // c
+  =
+float32
+    rootA 
+=
+false ;  repeatCount 	 // c
+    =char[
+10
+    ];
+}
+
+    packet	Z9_ { zchar[ 007] 
+	    //	t
+charz 	 // c
+, }	//x
+")).
+Eval vm_compute in ("<<<M1138>>>" ++ check (runes_of_ascii "// top
+MetaData // c0
+leftPad // c1
 { // c2
-u8 // c3
-a , // c5a
-  // c5b
+chars // c3
+MetaDataX // c4
+, // c5
+} // c6
+packet // c7
+repeatCount // c8
+{ // c9
+char[ // c10
+255 // c11
+] // c12
+uint8x // c13
+`" ++ [233]%N ++ runes_of_ascii "` // c14
+, // c15
+} // c16
+MetaData // c17
+pack // c18
+{ // c19
+As // c20
+Foo // c21
+, // c22
+} // c23
+")).
+Eval vm_compute in ("<<<M1253>>>" ++ check (runes_of_ascii "// top
+packet // c0
+Inner // c1
+{ // c2
+u8 // c3a
+  // c3b
+a // c4
+,
+    // c5
 } // c6
 root // c7
-packet P // c9a
-  // c9b
+packet // c8a
+  // c8b
+P // c9
 { // c10a
   // c10b
-u8 // c11
-K , // c13a
-  // c13b
-match K // c15a
-  // c15b
-as // c16a
-  // c16b
-Body { // c18
-1 :
-    // c20
-B , }
-    // c23
-, // c24a
-  // c24b
-u16 // c25a
-  // c25b
-L // c26
-@lengthOf( Body
-    // c28
-)
-    // c29
-,
-    // c30
-} ")).
-Eval vm_compute in ("<<<M1387>>>" ++ check (runes_of_ascii "options
-
-{ 
-LittleEndian
-	=
-true 
-;	}
-
-packet
-
-    Logon { u8
-	x
-,
-    }
-	packet
-Logout
-
-{ u16
-
-    reason
-	, }  root
-packet
-
-Frame
-{u64
-Kind , u64
-	Kind2
-
-,match
-Kind  as 
-Body 
-{
-1:	Logon,
-
-    [  2 ,3
-
-,
-    4 ] 
-:	Logout , 100
-: Logon
-    , 
-},
-match
-Kind2 as
-
-    Trailer{
-0
-:
-	Logout
-, } , } ")).
-Eval vm_compute in ("<<<M215>>>" ++ check (runes_of_ascii "root	packet
-    i8i8 { @tag( // c
-4294967296 )
-    // packet A { u8 x, }
-    Header  calculatedFrom `
-`
-, @tag(4294967296 )
-@rightPad ( ' '
-    )
-@lengthOf( float )
-    options1 zchar `" ++ [233]%N ++ runes_of_ascii "`
-//x
-/// triple
-,}	root packet
-    // " ++ [128512]%N ++ runes_of_ascii " emoji
-    x {repeat
-zchar[  10 ]	x`u8 x,`,
-    }")).
-Eval vm_compute in ("<<<M361>>>" ++ check (runes_of_ascii "MetaData BodyLength { uint16 leftPad `" ++ [233]%N ++ runes_of_ascii "` // a // b
-, uint8x asx,
-    len lengthOf `// not a comment` ,
-string uint8x `doc`
-, }options {i8i8 = 0
-lengthOf =
-    0123456789 ; } packet uint8x { @lengthOf(
-pack ) float64
-u8x@lengthOf(asx //x
-)
-, }
+repeat // c11a
+  // c11b
+Inner items // c13
+, // c14
+u8
+    // c15
+x , // c17a
+  // c17b
+} // c18
 ")).
-Eval vm_compute in ("<<<M358>>>" ++ check (runes_of_ascii "
-packet matchKey	{ // @lengthOf(
-@lengthOf(
-a1 ) string_
-T`" ++ [28040; 24687; 31867; 22411]%N ++ runes_of_ascii "`, //
-} packet body {f32 _x  , packetx @lengthOf(
-options1 ) // packet A { u8 x, }
-`` , @leftPad ( ' ') i16 crc ,@calculatedFrom(
-""" ++ [128512]%N ++ runes_of_ascii """
-)	Pad
-, } //")).
-Eval vm_compute in ("<<<M1311>>>" ++ check (runes_of_ascii "options {
-    FixedStringPadChar = '0';
-}
-packet Q {
-    zchar[4] z,
-    @rightPad('\x00') char[3] n,
-    char[5] d,
-}
-root packet R {
-    Q,
-    zchar[8] top,
-    repeat zchar[2] zs,
-}
-")).
-Eval vm_compute in ("<<<M1583>>>" ++ check (runes_of_ascii "  packet
-
-    A 
-{
-
-match
-    k as
-n {[ 
-""a""  , ""bb""
-	,
-    ""c c"" , ""d""
+Eval vm_compute in ("<<<M21>>>" ++ check (runes_of_ascii "packet  Logon //	t
+{pack	_x
     ,
-    ""e""
+Z9_ i8i8  `" ++ [28040; 24687; 31867; 22411]%N ++ runes_of_ascii "`	, } options
+    { tag	= 4294967296 ; As = string
+    ; rootA = true ; }root packet f32a { //x
+@leftPad
+// " ++ [27880; 37322]%N ++ runes_of_ascii "
+// c
+(' ') repeat _x`" ++ [233]%N ++ runes_of_ascii "`	, @rightPad ( )i8i8 len,}
 
-, 
-""f"" , ""g"" ,
-
-    ""h""
-
-, 
-""i""
-
-,
-""j""  ,	""k""
-    ]
-    :	B  2 
-:C}	, } ")).
-Eval vm_compute in ("<<<M1449>>>" ++ check (runes_of_ascii "packet A {
-    match k as n {
-        [
-            1, 22, ""c c"", 4, 5,
-            ""f"", 7, 8, ""i"", 10,
-            11
-        ] : B,
-        2 : C,
-    },
-}")).
-Eval vm_compute in ("<<<M1700>>>" ++ check (runes_of_ascii "  // top
-packet	// c0
-	  body// c1
-  { 	 // c2
-	  i32 	 // c3
-  f32a// c4
-	  `{ , }`	// c5
-,// c6
-    }  // c7
-  options// c8
-{	// c9
-  	} // c10
 ")).
-Eval vm_compute in ("<<<M541>>>" ++ check (runes_of_ascii "packet uint8x
+Eval vm_compute in ("<<<M1334>>>" ++ check (runes_of_ascii "packet
+    u128 {	u8 a 
+, } root packet
+
+    Msg {
+u8 
+k
+
+    ,  u24	{
+
+    u8
+Hi 
+,
+u16  Lo ,
+} 
+, repeat
+
+    i24 {u32	q
+, 
+} , u128 , u16
+
+    float32x, string	s
+	,  } ")).
+Eval vm_compute in ("<<<M1640>>>" ++ check (runes_of_ascii "
+packet
+A 
+{
+	u8 a
+, }	packet
+	B
+
+    {
+    u16
+    b
+,	} root 
+packet  P{ 
+u8
+K
+
+, match
+    K
+as
+
+    M
+	{
+	[
+1	,2 ] 
+:
+	A  ,3 :
+	B
+,  7
+    : 
+A
+    ,
+}
+	,	}")).
+Eval vm_compute in ("<<<M1714>>>" ++ check (runes_of_ascii "
+root
+packet
+	lengthOf{ @leftPad	( ' '  // c
+
+	)
+
+repeat char
+MetaDataX
+
+,	}
+MetaData Pad  { 
+msg_type
+rootA 	 // trailing space 
+
+  `// not a comment` ,	}
+")).
+Eval vm_compute in ("<<<M513>>>" ++ check (runes_of_ascii "packet uint8x
 { match pack
     as msg_type	{
     0123456789 :	float
@@ -1150,9 +982,9 @@ Eval vm_compute in ("<<<M541>>>" ++ check (runes_of_ascii "packet uint8x
 } packet //	t
 a1
     { } options {packetx
-    = '\x0" ++ [233]%N ++ runes_of_ascii "0'	; u128= ""a	b""  ; }
+    = '\x00'	; float32= ""a	b""  ; }
 ")).
-Eval vm_compute in ("<<<M497>>>" ++ check (runes_of_ascii "packet uint8x
+Eval vm_compute in ("<<<M482>>>" ++ check (runes_of_ascii "packet uint8x
 { match pack
     as msg_type	{
     0123456789 :	float
@@ -1160,257 +992,316 @@ Eval vm_compute in ("<<<M497>>>" ++ check (runes_of_ascii "packet uint8x
 ,
 } packet //	t
 a1
-    { } options {packetx
-    '\x00' =	; u128= ""a	b""  ; }
+    { } { options packetx
+    = '\x00'	; u128= ""a	b""  ; }
 ")).
-Eval vm_compute in ("<<<M272>>>" ++ check (runes_of_ascii "packet _x	{ } packet BodyLength { int64
-Packet
-@lengthOf( float ),
-options1 /// triple
-{rootA x	, u8
-Packet @calculatedFrom( """ ++ [28040; 24687]%N ++ runes_of_ascii """) `it's`  ,
-} , }")).
-Eval vm_compute in ("<<<M670>>>" ++ check (runes_of_ascii "// @lengthOf(
+Eval vm_compute in ("<<<M473>>>" ++ check (runes_of_ascii "packet uint8x
+{ match pack
+    as msg_type	{
+    0123456789 :	float
+}
+,
+} packet //	t
+a1
+    ] } options {packetx
+    = '\x00'	; u128= ""a	b""  ; }
+")).
+Eval vm_compute in ("<<<M702>>>" ++ check (runes_of_ascii "// @lengthOf(
 packet i8i8 { u128 o , }
 options { MetaDataX = true;
     BodyLength =""packet"" x_y_z= 007
 crc //x
-= ""abc"" ;
-    msg_type = =
+= ""abc"" ""abc"" ;
+    msg_type =
 i16 }")).
-Eval vm_compute in ("<<<M675>>>" ++ check (runes_of_ascii "// @lengthOf(
+Eval vm_compute in ("<<<M520>>>" ++ check (runes_of_ascii "packet uint8x
+{ match pack
+    as msg_type	{
+    0123456789 :	float
+}
+,
+} packet //	t
+a1
+    { } options {packetx
+    = '\x00'	; u128=   ; }
+")).
+Eval vm_compute in ("<<<M648>>>" ++ check (runes_of_ascii "// @lengthOf(
 packet i8i8 { u128 o , }
-options { MetaDataX true =;
+options { = MetaDataX true;
     BodyLength =""packet"" x_y_z= 007
 crc //x
 = ""abc"" ;
     msg_type =
 i16 }")).
-Eval vm_compute in ("<<<M98>>>" ++ check (runes_of_ascii "
-packet stringy {
-}
-MetaData u8x	{ zchar[ 65535
-    // a // b
-    ] Pad ,stringy string_
-`u8 x,` ,	u8 lengthOf`
-` , char[ 255
-] pack , } 	 ")).
-Eval vm_compute in ("<<<M1717>>>" ++ check (runes_of_ascii "packet
+Eval vm_compute in ("<<<M1605>>>" ++ check (runes_of_ascii "
+packet A {
 
-    A  { match
-    k
-as
-    n 
-{
+    match  k	as
 
-    [
-
-    ""a"", ""bb""  ,
-007
+    n { [  1 
+,  ""bb"" , 007 
+,  ""d""
 ,
+5
 
-    ""d""
-,""e"", 66 , ""g""
-
-,
-	""h""]
-	: 
-B
-2 : C} ,
-	} ")).
-Eval vm_compute in ("<<<M1684>>>" ++ check (runes_of_ascii "
-
-  packet 
-A
-
-    { match	k 
-as
-    n {  [
-""a""
-
-    , 
-22	,
-
-""c c"" , 4 ,""e""
     ,
-66
+
+    ""f"",
+7 , ""h""
+
+] :
+    B 
 ,
-""g"" ,
-
-8 
-]
-:	B
 2
-
-: 
-C} , }
+    :C  }
+    , }
 
 ")).
-Eval vm_compute in ("<<<M1142>>>" ++ check (runes_of_ascii "
-// c
-MetaData leftPad { chars MetaDataX , } packet repeatCount { char[ 255 ] uint8x `" ++ [233]%N ++ runes_of_ascii "` , } MetaData pack { As Foo , }")).
-Eval vm_compute in ("<<<M1168>>>" ++ check (runes_of_ascii "MetaData leftPad { chars MetaDataX , } packet repeatCount { char[ 255 ]
-// c
-uint8x `" ++ [233]%N ++ runes_of_ascii "` , } MetaData pack { As Foo , }")).
-Eval vm_compute in ("<<<M1731>>>" ++ check (runes_of_ascii "
-packet A	{  match k
-	as  n  {[	1
+Eval vm_compute in ("<<<M1298>>>" ++ check (runes_of_ascii "packet
+A
+{ 
+u8 a,
+}
 
-    ,
-22 ,
-""c c"" 
-,4	, 5,
+packet
+    B {
 
-    ""f""
+u16  b
+,} 
+root	packet	P
+{ u8
+K
 
-, 
-7
-, 8
 ,
 
-""i""
+    match	K
+
+as M	{1
+    :
+A,
+
+1	: 
+B 
+, }
+,
+
+    }
+
+")).
+Eval vm_compute in ("<<<M259>>>" ++ check (runes_of_ascii "  MetaData repeatCount // c
+{char[
+42 // " ++ [27880; 37322]%N ++ runes_of_ascii "
 ]
-:  B  , 2  :C 
-} 
-, }")).
-Eval vm_compute in ("<<<M910>>>" ++ check (runes_of_ascii "packet A {
+    // " ++ [128512]%N ++ runes_of_ascii " emoji
+    MetaDataX ,
+    // @lengthOf(
+    zchar[
+// " ++ [27880; 37322]%N ++ runes_of_ascii "
+//x
+0] asx , }
+")).
+Eval vm_compute in ("<<<M171>>>" ++ check (runes_of_ascii "options { Pad=	'\x00' ; u
+= false  repeatCount
+    = false ;// trailing space 
+T
+=// a // b
+""CRC32"" ;
+    a1 = ""it's""}
+")).
+Eval vm_compute in ("<<<M1163>>>" ++ check (runes_of_ascii "MetaData leftPad { chars MetaDataX , } packet repeatCount { char[ // c
+255 ] uint8x `" ++ [233]%N ++ runes_of_ascii "` , } MetaData pack { As Foo , }")).
+Eval vm_compute in ("<<<M1665>>>" ++ check (runes_of_ascii "  packet
+
+A
+{
+    match
+
+    k	as
+n{
+	[
+1
+,22
+,	""c c""
+
+,
+4 ,
+
+    5
+,
+
+""f"" ,
+7, 8
+] :
+    B 2	:  C }
+    , }
+")).
+Eval vm_compute in ("<<<M973>>>" ++ check (runes_of_ascii "packet A {
+    match k as n {
+        ""\
+"" : B,
+        [""\
+"", 1] : C,
+        [1,2,3,4,5,""\
+""] : D,
+    },
+}")).
+Eval vm_compute in ("<<<M1526>>>" ++ check (runes_of_ascii "
+
+  packet
+A
+
+    { match
+
+    k
+
+as
+	n 
+{ [ ""a""
+
+    , ""bb"" 
+, ""c c"",""d""
+
+]:
+
+B , 2	: C },
+    }")).
+Eval vm_compute in ("<<<M1684>>>" ++ check (runes_of_ascii "MetaData chars {
+    x_y_z x `line1
+    line2`,
+    _x A `// not a comment`,
+}// `tick` ""quote"" 'q'")).
+Eval vm_compute in ("<<<M871>>>" ++ check (runes_of_ascii "packet A {
   match k as n {
-    [""a"", 22, ""c c"", 4, ""e"", 66, ""g"", 8, ""i"", 10, ""k"", 12] : B,
+    [""a"", 22, ""c c"", 4, ""e"", 66, ""g"", 8, ""i""] : B,
     2 : C
   },
 }")).
-Eval vm_compute in ("<<<M912>>>" ++ check (runes_of_ascii "packet A {
-  match k as n {
-    [1, 22, ""c c"", 4, 5, ""f"", 7, 8, ""i"", 10, 11, ""l""] : B,
-    2 : C
-  },
+Eval vm_compute in ("<<<M1635>>>" ++ check (runes_of_ascii "packet u {
+    repeat A,
+    @lengthOf(lengthOf)
+    repeat i64 i64_,//
+    zchar[3] body,
 }")).
-Eval vm_compute in ("<<<M885>>>" ++ check (runes_of_ascii "packet A {
-  match k as n {
-    [""a"", 22, ""c c"", 4, ""e"", 66, ""g"", 8, ""i"", 10] : B
-    2 : C
-  },
-}")).
-Eval vm_compute in ("<<<M600>>>" ++ check (runes_of_ascii "
+Eval vm_compute in ("<<<M638>>>" ++ check (runes_of_ascii "
+packet
+    asx {match u128 as leng""thOf
+{
+//	t
+// `tick` ""quote"" 'q'
+255 : x ,
+    } ,	}")).
+Eval vm_compute in ("<<<M587>>>" ++ check (runes_of_ascii "
+packet
+    asx {match u128 as lengthOf
+
+//	t
+// `tick` ""quote"" 'q'
+255 : x ,
+    } ,	}")).
+Eval vm_compute in ("<<<M621>>>" ++ check (runes_of_ascii "
 packet
     asx {match u128 as lengthOf
 {
 //	t
 // `tick` ""quote"" 'q'
-255 packet x ,
-    } ,	}")).
-Eval vm_compute in ("<<<M585>>>" ++ check (runes_of_ascii "
-packet
-    asx {match u128 as @lengthOf(
-{
-//	t
-// `tick` ""quote"" 'q'
 255 : x ,
-    } ,	}")).
-Eval vm_compute in ("<<<M555>>>" ++ check (runes_of_ascii "
-asx
-    packet {match u128 as lengthOf
-{
-//	t
-// `tick` ""quote"" 'q'
-255 : x ,
-    } ,	}")).
-Eval vm_compute in ("<<<M577>>>" ++ check (runes_of_ascii "
-packet
-    asx {match u128  lengthOf
-{
-//	t
-// `tick` ""quote"" 'q'
-255 : x ,
-    } ,	}")).
-Eval vm_compute in ("<<<M836>>>" ++ check (runes_of_ascii "packet A {
-  match k as n {
-    [""a"", ""bb"", 007, ""d"", ""e"", 66] : B,
-    2 : C
-  },
+    }")).
+Eval vm_compute in ("<<<M1639>>>" ++ check (runes_of_ascii "MetaData charz {
+    As u128,
+    Logon options1 `say ""hi""`,
+    zchar[0] Logon,
 }")).
-Eval vm_compute in ("<<<M1527>>>" ++ check (runes_of_ascii "MetaData leftPad {
-    /// triple
-    char[] body,
-    As options1,
-    o i64_,
-}")).
-Eval vm_compute in ("<<<M826>>>" ++ check (runes_of_ascii "packet A {
-  match k as n {
-    [1, 22, 007, 4, 5, 66] : B,
-    2 : C
-  },
-}")).
-Eval vm_compute in ("<<<M960>>>" ++ check (runes_of_ascii "packet A {
-    B b `tab
-	x`,
-    B `tab
-	x`,
-    repeat B bs `tab
-	x`,
-}")).
-Eval vm_compute in ("<<<M795>>>" ++ check (runes_of_ascii "packet A {
-  match k as n {
-    [1, 22, ""c c""] : B,
-    2 : C
-  },
-}")).
-Eval vm_compute in ("<<<M782>>>" ++ check (runes_of_ascii "packet A {
-  match k as n {
-    [1, ""bb""] : B,
-    2 : C
-  },
-}")).
-Eval vm_compute in ("<<<M1503>>>" ++ check (runes_of_ascii "root 
-packet P
-	{u8  s_u8 ,repeat
-u8
-	r_u8,  u16 b_len  ,	}")).
-Eval vm_compute in ("<<<M1070>>>" ++ check (runes_of_ascii "packet A { match k as n { 1 : B // a // b 2 : C }, }")).
-Eval vm_compute in ("<<<M1213>>>" ++ check (runes_of_ascii "packet body { i32 f32a `{ , }` , } // c
-options { }")).
-Eval vm_compute in ("<<<M927>>>" ++ check (runes_of_ascii "MetaData M {
-    u8 x `a
-b`,
-    T t `a
-b`,
-}")).
-Eval vm_compute in ("<<<M212>>>" ++ check (runes_of_ascii "packet
-    MetaDataX {i16 u128`" ++ [233]%N ++ runes_of_ascii "` , //x
-}")).
-Eval vm_compute in ("<<<M1096>>>" ++ check (runes_of_ascii "packet A { u8 x,// a
+Eval vm_compute in ("<<<M1897>>>" ++ check (runes_of_ascii "  packet
+A{  match
+k	as n	{[	1
+,
 
+22 ,
+""c c"" ,
+	4
+,
+5 
+] :
+	B  ,2 :
 
-// b
+C}
 
- u8 y, }")).
-Eval vm_compute in ("<<<M85>>>" ++ check (runes_of_ascii "options// c
-{MetaDataX =int16 }
+, }")).
+Eval vm_compute in ("<<<M1402>>>" ++ check (runes_of_ascii "packet A {
+    @leftPad()
+    char[4] x,
+    @rightPad()
+    zchar[2] y,
+}")).
+Eval vm_compute in ("<<<M108>>>" ++ check (runes_of_ascii "packet int {}
+options {leftPad ='0' ;metadata= char[] Foo=
+'0' ; }
 ")).
-Eval vm_compute in ("<<<M993>>>" ++ check (runes_of_ascii "packet A {
- u8 x `d" ++ [133]%N ++ runes_of_ascii "`, // c" ++ [133]%N ++ runes_of_ascii "
-}")).
-Eval vm_compute in ("<<<M1637>>>" ++ check (runes_of_ascii "
-packet x
+Eval vm_compute in ("<<<M1778>>>" ++ check (runes_of_ascii "options
+{
+    len
+	=  // " ++ [128512]%N ++ runes_of_ascii " emoji
+""packet""int
 
-    {
-} // c
+=	""abc""
+
+    }
+
 ")).
-Eval vm_compute in ("<<<M286>>>" ++ check (runes_of_ascii " // `tick` ""quote"" 'q'")).
-Eval vm_compute in ("<<<M20>>>" ++ check (runes_of_ascii "packet MetaDataX { }")).
-Eval vm_compute in ("<<<M976>>>" ++ check (runes_of_ascii "packet A {
+Eval vm_compute in ("<<<M261>>>" ++ check (runes_of_ascii "options{ asx= ""1"" //	t
+Pad =  0 stringy =
+    '\x00'
+    ; }")).
+Eval vm_compute in ("<<<M1625>>>" ++ check (runes_of_ascii "  root	packet 
+P  {  hdr
+{	u8
+a ,
+    }
+, u8  x
+
+, }
+")).
+Eval vm_compute in ("<<<M1203>>>" ++ check (runes_of_ascii "packet body { // c
+i32 f32a `{ , }` , } options { }")).
+Eval vm_compute in ("<<<M1100>>>" ++ check (runes_of_ascii "// top
+MetaData // c0
+tag // c1
+{ // c2
+} // c3
+")).
+Eval vm_compute in ("<<<M363>>>" ++ check (runes_of_ascii "MetaData
+    // @lengthOf(
+    tag {
+    }")).
+Eval vm_compute in ("<<<M1546>>>" ++ check (runes_of_ascii "
+
+  // `tick` ""quote"" 'q'
+options{
+}")).
+Eval vm_compute in ("<<<M1500>>>" ++ check (runes_of_ascii "  root
+
+    packet  falsey{
+	}
+
+")).
+Eval vm_compute in ("<<<M1674>>>" ++ check (runes_of_ascii "packet A {
+    u8 x `
+    x`,
+}")).
+Eval vm_compute in ("<<<M1881>>>" ++ check (runes_of_ascii "// c
+packet asx {
+}/// triple")).
+Eval vm_compute in ("<<<M1084>>>" ++ check (runes_of_ascii "packet A { // a
+ u8 x, }")).
+Eval vm_compute in ("<<<M747>>>" ++ check (runes_of_ascii "true int16 u16 { f32a")).
+Eval vm_compute in ("<<<M1134>>>" ++ check (runes_of_ascii "MetaData u { // c
+}")).
+Eval vm_compute in ("<<<M1031>>>" ++ check (runes_of_ascii "packet A {
 }
-// c ")).
-Eval vm_compute in ("<<<M1057>>>" ++ check (runes_of_ascii "// c" ++ [6158]%N ++ runes_of_ascii "
-packet A {
+// c" ++ [11]%N)).
+Eval vm_compute in ("<<<M1019>>>" ++ check (runes_of_ascii "packet A {
+}// c" ++ [8239]%N)).
+Eval vm_compute in ("<<<M1835>>>" ++ check (runes_of_ascii "packet pack {
 }")).
-Eval vm_compute in ("<<<M1227>>>" ++ check (runes_of_ascii "packet
-// c
-x { }")).
-Eval vm_compute in ("<<<M297>>>" ++ check (runes_of_ascii "// " ++ [128512]%N ++ runes_of_ascii " emoji
-
-
-")).
-Eval vm_compute in ("<<<M985>>>" ++ check (runes_of_ascii "// c" ++ [160]%N)).
-Eval vm_compute in ("<<<M19>>>" ++ check (runes_of_ascii "
-")).
+Eval vm_compute in ("<<<M252>>>" ++ check (runes_of_ascii " // c")).
+Eval vm_compute in ("<<<M728>>>" ++ check (runes_of_ascii "		")).
